@@ -106,10 +106,42 @@ class Roles:
     def identity_fields(self, v):
         return [f for f in self.fields[v] if f != self.display[v] and f != self.reserve[v]]
 
-    # -- role terms of an order term
+    # -- views of an order term
+    def view(self, o, facts):
+        """(variant, {field: term}) of an order value: a constructed aggregate, an in-place update chain over another
+        order (`let mut out = self.clone(); out.quantity = q`), or an opaque order whose variant is known from the facts"""
+        if isinstance(o, tuple) and o[0] == "agg":
+            return o[2], dict(o[3])
+        if isinstance(o, tuple) and o[0] == "upd":
+            ups = []
+            base = o
+            v_hint = None
+            while isinstance(base, tuple) and base[0] == "upd":
+                step = base[2]
+                if step[0] == "f":
+                    ups.append((step[2], base[3]))
+                    v_hint = v_hint or step[1]
+                base = base[1]
+            bv, bf = self.view(base, facts)
+            v = bv or v_hint
+            if v is None or v not in self.fields:
+                return None, None
+            if bf is None:
+                bf = {f: ("field", base, v, f) for f in self.fields[v]}
+            fd = dict(bf)
+            for name, val in reversed(ups):
+                fd[name] = val
+            return v, fd
+        v = facts.variant.get(o)
+        if v is not None and v in self.fields:
+            return v, {f: ("field", o, v, f) for f in self.fields[v]}
+        return None, None
+
     def variant_of(self, o, facts):
         if isinstance(o, tuple) and o[0] == "agg":
             return o[2]
+        if isinstance(o, tuple) and o[0] == "upd":
+            return self.view(o, facts)[0]
         return facts.variant.get(o)
 
     def role(self, o, facts, which):
@@ -120,8 +152,10 @@ class Roles:
         f = (self.display if which == "display" else self.reserve)[v]
         if f is None:
             return ("int", 0)
-        if isinstance(o, tuple) and o[0] == "agg":
-            return dict(o[3])[f]
+        if isinstance(o, tuple) and o[0] in ("agg", "upd"):
+            fd = self.view(o, facts)[1]
+            if fd is not None and f in fd:
+                return fd[f]
         return ("field", o, v, f)
 
 
